@@ -60,6 +60,8 @@ type AddrV struct {
 	G    *ssa.Global
 	STyp types.Type // aField: struct type and field index
 	FIdx int
+	Slice Term // aElem via a slice: the slice header and the index within it
+	SIdx  Term
 }
 
 type TupV []Val
@@ -267,6 +269,8 @@ type Exec struct {
 	frameWhole map[string]bool
 	frameReady bool
 	curCfg     *Config
+	taggedTypes map[string]types.Type
+	implPreds   []implPred2
 }
 
 func NewExec(P *Program, fn *ssa.Function, c *FuncContract) *Exec {
